@@ -3,8 +3,10 @@
 (* C09: recorded runs of delayed sends and cancels (harness/mt_delay,       *)
 (* random mode) validated against the timing contract.  Time is the logged  *)
 (* monotonic clock in milliseconds since the start of the run.              *)
-(*   send(i, delay, t)   <send id=i delay=..> executed at t                 *)
-(*   cancel(i, t)        <cancel sendid=i> returned at t                    *)
+(*   send(i, id, delay, t)  <send event=d.i id=id delay=..> executed at t     *)
+(*                       (several sends may share one sendid)               *)
+(*   cancel(id, t)       <cancel sendid=id> returned at t: cancels EVERY    *)
+(*                       pending event that was sent with that id           *)
 (*   deliver(i, t)       the event was taken from the external queue at t   *)
 (* Granularities (assumptions, see evidence): G = 5 ms for "not early"       *)
 (* (libevent reads CLOCK_MONOTONIC_COARSE, one kernel tick = 4 ms here),    *)
@@ -27,7 +29,7 @@ DInit == /\ TLCSet(1, ndJsonDeserialize(IOEnv.TRACE))
          /\ l = 1 /\ sent = <<>> /\ cancelledAt = <<>> /\ deliveredAt = <<>> /\ skip = TRUE /\ run = 0
 
 DReset == /\ Line.k = "reset"
-          /\ sent' = [i \in 1..Line.n |-> [t |-> NoTime, delay |-> 0]]
+          /\ sent' = [i \in 1..Line.n |-> [t |-> NoTime, delay |-> 0, id |-> 0]]
           /\ cancelledAt' = [i \in 1..Line.n |-> NoTime]
           /\ deliveredAt' = [i \in 1..Line.n |-> NoTime]
           /\ skip' = FALSE /\ run' = Line.run /\ l' = l + 1
@@ -39,11 +41,13 @@ Verdict(why) == [case |-> run, chart |-> 0, exec |-> "mt_delay", line |-> l, pro
 Due(i) == sent[i].t + sent[i].delay
 
 DSend == /\ Line.k = "send" /\ ~skip
-         /\ sent' = [sent EXCEPT ![Line.i] = [t |-> Line.t, delay |-> Line.delay]]
+         /\ sent' = [sent EXCEPT ![Line.i] = [t |-> Line.t, delay |-> Line.delay, id |-> Line.id]]
          /\ UNCHANGED <<cancelledAt, deliveredAt, skip, run>> /\ l' = l + 1
 
 DCancel == /\ Line.k = "cancel" /\ ~skip
-           /\ cancelledAt' = [cancelledAt EXCEPT ![Line.i] = IF @ = NoTime THEN Line.t ELSE @]
+           /\ cancelledAt' = [i \in DOMAIN cancelledAt |->
+                                  IF sent[i].t # NoTime /\ sent[i].id = Line.id /\ cancelledAt[i] = NoTime
+                                  THEN Line.t ELSE cancelledAt[i]]
            /\ UNCHANGED <<sent, deliveredAt, skip, run>> /\ l' = l + 1
 
 DDeliver ==
